@@ -45,7 +45,7 @@ def gen_scenario(rng, allow_zero_stop=True, small=False, delayed=False):
             if rng.random() < 0.12:
                 states.append({"k": k, "id": i, "state": rng.choice(STATES)})
             if rng.random() < 0.15:
-                props.append({"k": k, "id": i, "x": rng.choice([-2.5, -1.0, 0.0, 0.125, 3.75, 10.0]), "n": rng.choice([-4, -1, 0, 2, 7])})
+                props.append({"k": k, "id": i, "x": rng.choice([-2.5, -1.0, 0.0, 0.125, 3.75, 10.0]), "n": rng.choice([-4, -1, 0, 2, 7, 2.5, -0.75])})      # (an Integer-declared property may legally hold 2.5)
     # deletions from inside act: an agent removes itself or an agent created before it (both have
     # already acted in this step, so the rest of the step is unambiguous: everybody else still acts once)
     acts = []
